@@ -12,24 +12,27 @@ def _nn(v):
     return np.inf if np.isnan(v) else v
 
 
-TECHNIQUE = 'Coq proof of the direct-interpolation equations (any field, every splitting) + bit-exact kernel/model correspondence + defining-equation oracle'
+TECHNIQUE = 'Coq proof of the direct- and classical-interpolation equations (any field, every splitting) + bit-exact kernel/model correspondence + defining-equation oracle'
 LEVEL_TEXT = ('Kernel-checked theorems (Props/C11.v) about the Gallina model of rs_direct_interpolation_pass2 over any '
               'field, for every matrix, strength pattern and C/F splitting: a coarse point gets an identity row, a fine '
               'point has weights exactly on its strongly connected coarse points, and on an M-matrix row with zero row sum '
-              'the weights sum to one.  The Gallina models of direct interpolation, remove_strong_FF_connections and '
+              'the weights sum to one; for the model of rs_classical_interpolation_pass2 (standard and modified) coarse points get '
+              'identity rows and fine points one weight per strongly connected coarse point, and for the standard variant the weights '
+              'of a zero-row-sum row sum to one whenever every strong F neighbour has a nonzero row sum over the interpolatory set and '
+              'the 1e-15 filter drops no nonzero entry.  The Gallina models of direct interpolation, remove_strong_FF_connections and '
               'classical interpolation (standard and modified), evaluated at PrimFloat, must reproduce bit-for-bit what the '
               'rebuilt working-tree kernels return on random M-matrices / weakly diagonally dominant matrices with arbitrary '
               '(not only library-produced) splittings; an oracle checks the defining equations on the public routines: '
               'identity rows, supports, row sums, the published direct and classical formulas, one-point and injection '
               'interpolation, and (R A)[i,j] = 0 on the F-pattern with an identity block for local AIR (degree 1, 2).')
-LEVEL_NOTE = ('Classical interpolation row sums and the AIR local solve are decided by the oracle (the dense local solve is '
+LEVEL_NOTE = ('Modified classical interpolation row sums / formulas and the AIR local solve are decided by the oracle (the dense local solve is '
               'LAPACK).  Float behaviour through the bit-exact PrimFloat correspondence.')
 RULE = ('symmetric and nonsymmetric M-matrices / weakly diagonally dominant matrices n=3..9 with dyadic or random entries, '
         'random strength subsets (theta in {0,.25,.5}) and ARBITRARY splittings; kernels direct pass2, remove_strong_FF, '
         'classical pass2 (modified on/off) == model at PrimFloat; oracle on direct / classical / one_point / injection / '
         'local_air (degree 1, 2).  Non-trivial: at least one F point with a strong C connection.')
 TRUSTED = ['LAPACK local solves inside the AIR kernel', 'SciPy sparse elementwise product used to form C.multiply(A)']
-PARTIAL = ['classical interpolation (row sums, formula) and AIR: correspondence + oracle, no theorem']
+PARTIAL = ['modified classical interpolation row sums, published-formula equality and AIR: correspondence + oracle, no theorem']
 HEADER = ('From Coq Require Import ZArith List PrimFloat.\nImport ListNotations.\n'
           'Require Import PV.Base.Ops PV.Model.InterpRun.\nOpen Scope Z_scope.\n')
 I32 = np.int32
